@@ -139,6 +139,8 @@ pub struct RunResult {
     /// bytes each SCTP endpoint (A, B) handed to its DTLS transport (SctpTransport::link_stats), read at
     /// the end of the run: compared with the captured bytes it reveals loss on the harness' own datagram path
     pub link_bytes_sent: [u64; 2],
+    /// statistics of the harness-built SACKs (RigExtra.sack_form)
+    pub sack_synth: Option<crate::net::sacksynth::SynthStats>,
 }
 
 /// Deterministic message content: uid(4) size(4) then a keyed xorshift stream; truncated to `size`.
@@ -274,7 +276,18 @@ fn expected_counts(w: &Workload) -> HashMap<(Side, u16), usize> {
     m
 }
 
+/// Optional extras of a run that are not part of `NetSpec` (whose serialised form is fixed by replays).
+#[derive(Clone, Debug, Default)]
+pub struct RigExtra {
+    /// replace every genuine SACK by a harness-built truthful one (see net::sacksynth)
+    pub sack_form: Option<crate::net::sacksynth::SackForm>,
+}
+
 pub async fn run_case(w: &Workload, n: &NetSpec, lim: &Limits) -> anyhow::Result<RunResult> {
+    run_case_with(w, n, lim, &RigExtra::default()).await
+}
+
+pub async fn run_case_with(w: &Workload, n: &NetSpec, lim: &Limits, extra: &RigExtra) -> anyhow::Result<RunResult> {
     let sh = Arc::new(Shared {
         t0: Instant::now(),
         events: Mutex::new(Vec::new()),
@@ -316,6 +329,13 @@ pub async fn run_case(w: &Workload, n: &NetSpec, lim: &Limits) -> anyhow::Result
         }
     }
     let mut pair = Pair::build(spec).await?;
+    let synth = extra.sack_form.map(|f| Arc::new(Mutex::new(crate::net::sacksynth::SackSynth::new(f))));
+    if let Some(sy) = &synth {
+        let mut g = pair.sctp_layer.lock();
+        let (s1, s2) = (sy.clone(), sy.clone());
+        g.on_deliver = Some(Arc::new(move |from: Side, b: &Bytes| s1.lock().on_deliver(from, b)));
+        g.rewrite = Some(Arc::new(move |from: Side, b: &Bytes| s2.lock().rewrite(from, b)));
+    }
 
     // in-band channels announced by the peer
     for side in [Side::A, Side::B] {
@@ -510,6 +530,7 @@ pub async fn run_case(w: &Workload, n: &NetSpec, lim: &Limits) -> anyhow::Result
         end_us,
         diag,
         link_bytes_sent,
+        sack_synth: synth.map(|s| s.lock().stats.clone()),
     })
 }
 
